@@ -374,8 +374,14 @@ def run(ctx):
     else:
         ctx.violation("R15.3", "ImagePart.new", "new image part does not take ext / content type / blob from the Image object",
                       file=f.file, line=f.line)
+    # class-level constants (tables written in the class body and never assigned on an instance) are not state of the image
+    inst_stores = {t_.attr for g_ in prog.all_functions() if g_.cls is not None and img in prog.mro(g_.cls) for n_ in ast.walk(g_.node)
+                   if isinstance(n_, (ast.Assign, ast.AugAssign, ast.AnnAssign)) for t_ in (n_.targets if isinstance(n_, ast.Assign) else [n_.target])
+                   if isinstance(t_, ast.Attribute) and dotted(t_.value) in ("self", "cls")}
+    class_consts = {k_ for c_ in prog.mro(img) for k_ in getattr(c_, "attrs", {})} - inst_stores
     for member in ("ext", "content_type", "size", "dpi", "sha1"):
         fields, calls = deps(prog, img, member)
+        fields = set(fields) - class_consts
         key = "Image.%s" % member
         if fields == {"_blob"}:
             ctx.ok("R15.3", key, sample={"depends_on": sorted(fields), "via": sorted(c for c in calls if "PIL" in c or "hashlib" in c)})
@@ -404,11 +410,14 @@ def run(ctx):
         calls = [n for n in ast.walk(fbm.node) if isinstance(n, ast.Call) and dotted(n.func) == "cls"]
         if not (calls and calls[0].args and isinstance(calls[0].args[0], ast.Name) and calls[0].args[0].id == "blob"):
             probs.append("from_blob does not pass blob unchanged to the constructor")
-        fcalls = [n for n in ast.walk(ff.node) if isinstance(n, ast.Call) and dotted(n.func) == "cls.from_blob"]
+        ffx = _expand(prog, ff, depth=3, local_only=True, skip_names=("from_blob",))   # readers split into per-kind helpers are read in place
+        fcalls = [n for n in ast.walk(ffx) if isinstance(n, ast.Call) and dotted(n.func) == "cls.from_blob"]
         if not (fcalls and fcalls[0].args and isinstance(fcalls[0].args[0], ast.Name)):
             probs.append("%s does not pass a local to from_blob" % reader)
         else:
-            srcs = local_sources(ff.node, fcalls[0].args[0].id)
+            srcs = local_sources(ffx, fcalls[0].args[0].id)
+            for _ in range(4):   # plain copies (`blob = t`) are followed to what they copy
+                srcs = [y for x in srcs for y in (local_sources(ffx, x.id) if isinstance(x, ast.Name) and local_sources(ffx, x.id) else [x])]
             plain = [x for x in srcs if isinstance(x, ast.Call) and isinstance(x.func, ast.Attribute) and x.func.attr == "read"
                      and not x.args]
             if not srcs or len(plain) != len(srcs):
